@@ -2,7 +2,7 @@
     state (so every later answer is identical); for PQ / IVFPQ it reads back as the state without raw
     vectors, which by design are not persisted and which no search of those kinds looks at. *)
 From Coq Require Import ZArith List Bool Lia.
-From Comet Require Import Base.FBits Base.Parse Model.Format Model.Distance Model.Limiter Model.Aggregation Model.KMeans Model.VecIndex Model.Codecs.
+From Comet Require Import Base.FBits Base.Parse Base.Sorting Model.Format Model.Distance Model.Limiter Model.Aggregation Model.KMeans Model.VecIndex Model.Codecs.
 Import ListNotations.
 Open Scope Z_scope.
 
@@ -60,4 +60,129 @@ Proof.
   destruct tr.
   - cbn [Z.eqb]. rewrite mapM_opt_map by (intros; apply lp_floats_vfloats_lp). cbn [vseq] in Hlists. rewrite Hlists. reflexivity.
   - rewrite (Hc eq_refl). cbn [Z.eqb]. cbn [vseq] in Hlists. rewrite Hlists. reflexivity.
+Qed.
+
+(** ---- PQ / IVFPQ: raw vectors are not persisted, and no search of these kinds reads them ---- *)
+Definition strip_e (e : entry) : entry := {| e_id := e_id e; e_vec := []; e_code := e_code e |}.
+Definition strip (s : vstate) : vstate :=
+  {| st_trained := st_trained s; st_centroids := st_centroids s; st_codebooks := st_codebooks s;
+     st_lists := map (map strip_e) (st_lists s); st_deleted := st_deleted s |}.
+
+Lemma scan_list_strip s rq (score : entry -> Z) l :
+  (forall e, score (strip_e e) = score e) ->
+  scan_list (strip s) rq score (map strip_e l) = scan_list s rq score l.
+Proof.
+  intros Hs. unfold scan_list. induction l as [|e t IH]; [reflexivity|].
+  cbn [map flat_map]. rewrite IH, Hs. reflexivity.
+Qed.
+
+Lemma all_entries_strip s : all_entries (strip s) = map strip_e (all_entries s).
+Proof. unfold all_entries, strip. cbn [st_lists]. rewrite concat_map. reflexivity. Qed.
+
+Theorem search_ignores_raw_vectors p s rq q :
+  p_kind p = KPQ \/ p_kind p = KIVFPQ ->
+  search_single p (strip s) rq q = search_single p s rq q.
+Proof.
+  intros Hk. unfold search_single. cbn [strip st_trained].
+  destruct (negb (st_trained s)); [reflexivity|].
+  destruct (negb (Z.of_nat (length q) =? p_dim p)); [reflexivity|].
+  destruct Hk as [Hk|Hk]; rewrite Hk.
+  - rewrite all_entries_strip.
+    destruct (all_entries s) as [|e0 es] eqn:Ea; [reflexivity|]. cbn [map].
+    destruct (preprocess (p_metric p) q) as [pq|]; [|reflexivity].
+    change (strip_e e0 :: map strip_e es) with (map strip_e (e0 :: es)).
+    cbn [strip st_codebooks]. rewrite scan_list_strip by reflexivity. reflexivity.
+  - destruct (preprocess (p_metric p) q) as [pq|]; [|reflexivity].
+    cbn [strip st_centroids st_codebooks st_lists].
+    set (cds := isort _ _).
+    assert (E : forall l : list (Z * Z),
+       flat_map (fun cd : Z * Z =>
+                   scan_list (strip s) rq
+                     (fun e => adist (dist_tables p (st_codebooks s) (vsub pq (nthv (st_centroids s) (fst cd)))) (e_code e))
+                     (nth (Z.to_nat (fst cd)) (map (map strip_e) (st_lists s)) [])) l =
+       flat_map (fun cd : Z * Z =>
+                   scan_list s rq
+                     (fun e => adist (dist_tables p (st_codebooks s) (vsub pq (nthv (st_centroids s) (fst cd)))) (e_code e))
+                     (nth (Z.to_nat (fst cd)) (st_lists s) [])) l).
+    { induction l as [|cd t IH]; [reflexivity|]. cbn [flat_map]. rewrite IH. f_equal.
+      change (@nil entry) with (map strip_e []). rewrite map_nth. apply scan_list_strip. reflexivity. }
+    rewrite E. reflexivity.
+Qed.
+
+(** codebooks are written flattened and re-chunked on read *)
+Lemma chunks_concat n : (0 < n)%nat -> forall (b : list (list Z)) fuel,
+  Forall (fun cw => length cw = n) b -> (length b <= fuel)%nat -> chunks n fuel (concat b) = b.
+Proof.
+  intros Hn. induction b as [|cw t IH]; intros fuel Hb Hf.
+  - destruct fuel; reflexivity.
+  - inversion Hb as [|? ? Hc Ht]; subst. destruct fuel as [|f]; [cbn in Hf; lia|].
+    cbn [concat chunks].
+    destruct (cw ++ concat t) as [|z zs] eqn:E.
+    { destruct cw; [cbn in Hn; cbn in *; lia|discriminate]. }
+    rewrite <- E. rewrite firstn_app, Nat.sub_diag, firstn_all, firstn_O, app_nil_r.
+    rewrite skipn_app, Nat.sub_diag, skipn_all, skipn_O. cbn [app].
+    rewrite IH; [reflexivity|exact Ht|cbn in Hf; lia].
+Qed.
+
+Lemma book_of_concat dsub (b : list vec) :
+  0 < dsub -> Forall (fun cw => length cw = Z.to_nat dsub) b -> book_of dsub (concat b) = b.
+Proof.
+  intros Hd Hb. unfold book_of. destruct (Z.leb_spec dsub 0); [lia|].
+  apply chunks_concat; [unfold natZ; lia|exact Hb|].
+  clear -Hb Hd. induction Hb as [|cw t Hc Ht IH]; [cbn; lia|].
+  cbn [concat length]. rewrite app_length. unfold natZ in *. lia.
+Qed.
+
+Lemma entry_code_inv e : entry_code (vseq [VZ (e_id e); VB (e_code e)]) = Some (strip_e e).
+Proof. reflexivity. Qed.
+
+Definition books_wf (dsub : Z) (books : list (list vec)) : Prop :=
+  Forall (Forall (fun cw => length cw = Z.to_nat dsub)) books.
+
+Lemma books_roundtrip dsub books : 0 < dsub -> books_wf dsub books ->
+  mapM_opt lp_floats (map (fun b => vfloats_lp (concat b)) books) = Some (map (@concat Z) books) /\
+  map (book_of dsub) (map (@concat Z) books) = books.
+Proof.
+  intros Hd Hw. split.
+  - rewrite <- (map_map (@concat Z) vfloats_lp). apply mapM_opt_map. intros; apply lp_floats_vfloats_lp.
+  - rewrite map_map. rewrite <- (map_id books) at 2. apply map_ext_in. intros b Hb.
+    apply book_of_concat; [exact Hd|]. unfold books_wf in Hw. rewrite Forall_forall in Hw. apply Hw, Hb.
+Qed.
+
+Lemma mapM_entry_code l : mapM_opt entry_code (map (fun e => vseq [VZ (e_id e); VB (e_code e)]) l) = Some (map strip_e l).
+Proof.
+  induction l as [|e t IH]; [reflexivity|]. cbn [map mapM_opt]. rewrite entry_code_inv, IH. reflexivity.
+Qed.
+
+(** flushed PQ state reads back as the same state without raw vectors *)
+Theorem of_to_val_pq p bm tr books l :
+  p_kind p = KPQ -> 0 < p_dsub p -> books_wf (p_dsub p) books -> (tr = false -> books = []) ->
+  of_val p (to_val p bm (mk_state tr [] books [l])) = Some (strip (mk_state tr [] books [l])).
+Proof.
+  intros Hk Hd Hw Hb. unfold of_val, to_val. rewrite Hk. cbn [vseq]. unfold trained_val, mk_state.
+  cbn [st_trained st_codebooks]. rewrite lp_items_vlp.
+  unfold all_entries. cbn [st_lists concat]. rewrite app_nil_r. rewrite mapM_entry_code.
+  destruct (books_roundtrip (p_dsub p) books Hd Hw) as [E1 E2].
+  unfold strip. cbn [st_trained st_centroids st_codebooks st_lists st_deleted map].
+  destruct tr.
+  - cbn [Z.eqb]. rewrite E1. change ((1 =? 1)%positive) with true. cbv iota. rewrite E2. reflexivity.
+  - rewrite (Hb eq_refl). reflexivity.
+Qed.
+
+Theorem of_to_val_ivfpq p bm tr cents books lists :
+  p_kind p = KIVFPQ -> 0 < p_dsub p -> books_wf (p_dsub p) books -> (tr = false -> cents = [] /\ books = []) ->
+  of_val p (to_val p bm (mk_state tr cents books lists)) = Some (strip (mk_state tr cents books lists)).
+Proof.
+  intros Hk Hd Hw Hb. unfold of_val, to_val. rewrite Hk. cbn [vseq]. unfold trained_val, mk_state.
+  cbn [st_trained st_centroids st_codebooks st_lists]. rewrite lp_items_vlp.
+  assert (Hlists : mapM_opt (fun l => match lp_items l with Some it => mapM_opt entry_code it | None => None end)
+                     (map (fun l => vlp (map (fun e => VP (VZ (e_id e)) (VB (e_code e))) l)) lists)
+                   = Some (map (map strip_e) lists)).
+  { induction lists as [|l t IH]; [reflexivity|]. cbn [map mapM_opt]. rewrite lp_items_vlp.
+    pose proof (mapM_entry_code l) as E. cbn [vseq] in E. rewrite E, IH. reflexivity. }
+  destruct (books_roundtrip (p_dsub p) books Hd Hw) as [E1 E2].
+  unfold strip. cbn [st_trained st_centroids st_codebooks st_lists st_deleted].
+  destruct tr.
+  - cbn [Z.eqb]. rewrite mapM_opt_map by (intros; apply lp_floats_vfloats_lp). rewrite E1, Hlists. change ((1 =? 1)%positive) with true. cbv iota. rewrite E2. reflexivity.
+  - destruct (Hb eq_refl) as [-> ->]. cbn [Z.eqb map]. rewrite Hlists. reflexivity.
 Qed.
